@@ -44,6 +44,7 @@ type E2E struct {
 	Sc     Scenario  `json:"scenario"`
 	gs     []genSpan // same order as Sc.Spans
 	dupIDs bool      // some span id occurs twice
+	noCoq  bool      // trace ids outside the compact encoding of the case files: oracle only
 }
 
 func tidHex(t uint64) string { return fmt.Sprintf("ab%014x%016x", 0, t) }
@@ -310,6 +311,16 @@ func genE2E(r *vhlib.Rng, kind string) *E2E {
 		}
 		e := finish(r, kind, gs, 2)
 		e.Sc.Gantt = e.Sc.Gantt[:3]
+		return e
+	case "numid": // known class: a trace id that consists of decimal digits only
+		gs, _ := genForest(r, 1+r.Intn(3), 40, false)
+		tr := genTrace(r, 500, 0x700000, traceOpt{n: 2 + r.Intn(5), shape: r.Intn(4), nsvc: 3, startMs: 7})
+		id := fmt.Sprintf("%032d", 1000000007+uint64(r.Intn(1000000)))
+		for i := range tr {
+			tr[i].Span.T = id
+		}
+		e := finish(r, kind, append(gs, tr...), r.Intn(3))
+		e.noCoq = true
 		return e
 	case "manytraces": // known class: more than one page (50) of traces, at most 100 spans
 		var gs []genSpan
@@ -677,7 +688,9 @@ func oracle(e *E2E, o *WorkerObs, sum *vhlib.Summary) {
 		tr := sp.byTrace[t]
 		wf := sp.wellFormed(t)
 		if g.Tree == nil {
-			if wf && len(tr) <= 1000 {
+			if wf && len(tr) <= 1000 && strings.Trim(t, "0123456789") == "" {
+				fail("span_tree_numeric_trace_id", fmt.Sprintf("trace %s (%d spans, well formed, id of decimal digits only): searchText trace_id=%s matches nothing: %d %s", t, len(tr), t, g.Code, g.Body), t)
+			} else if wf && len(tr) <= 1000 {
 				fail("span_tree_error_on_wellformed", fmt.Sprintf("trace %s (%d spans, well formed): %d %s", t, len(tr), g.Code, g.Body), t)
 			}
 			continue
@@ -713,6 +726,9 @@ func oracle(e *E2E, o *WorkerObs, sum *vhlib.Summary) {
 			if c > 1 {
 				fail("span_tree_duplicate_span", fmt.Sprintf("trace %s: span %s appears %d times", t, id, c), t)
 			}
+		}
+		if wf && len(tr) > 1000 && len(seen) < len(tr) {
+			sum.Count("observed/gantt_partial_view_over_1000_spans")
 		}
 		if wf && len(tr) <= 1000 {
 			for _, x := range tr {
@@ -957,13 +973,13 @@ func streamE2E(cfg vhlib.Config, r *vhlib.Rng, sum *vhlib.Summary) {
 	plan := []struct {
 		kind string
 		n    int
-	}{{"main", 26}, {"malformed", 18}, {"dupid", 6}, {"big", 2}, {"huge", 1},
-		{"deppage", 2}, {"multiroot", 2}, {"crossjoin", 2}, {"manytraces", 2}} // the last four: known-defect classes, own generator streams
+	}{{"main", 30}, {"malformed", 22}, {"dupid", 6}, {"big", 2}, {"huge", 2},
+		{"deppage", 2}, {"multiroot", 2}, {"crossjoin", 2}, {"manytraces", 2}, {"numid", 2}} // the last five: known-defect classes, own generator streams
 	if cfg.Thorough() {
 		plan = []struct {
 			kind string
 			n    int
-		}{{"main", 900}, {"malformed", 700}, {"dupid", 200}, {"big", 150}, {"huge", 30}, {"deppage", 10}, {"multiroot", 10}, {"crossjoin", 10}, {"manytraces", 10}}
+		}{{"main", 700}, {"malformed", 600}, {"dupid", 150}, {"big", 60}, {"huge", 40}, {"deppage", 10}, {"multiroot", 10}, {"crossjoin", 10}, {"manytraces", 10}, {"numid", 10}}
 	}
 	var all []*E2E
 	for _, p := range plan {
@@ -1024,8 +1040,8 @@ func streamE2E(cfg vhlib.Config, r *vhlib.Rng, sum *vhlib.Summary) {
 			continue
 		}
 		oracle(e, obs[i], sum)
-		if len(e.Sc.Spans) > 1000 && !cfg.Thorough() {
-			continue // quick tier: the model comparison of a >1000-span forest costs more than the budget allows
+		if len(e.Sc.Spans) > 1000 || e.noCoq {
+			continue // a >1000-span forest is checked by the oracle only (its paged views are not a function of the span set; Coq list literals of that size overflow the stack)
 		}
 		d, n := coqScenario(i, e, obs[i])
 		defs.WriteString(d)
